@@ -772,6 +772,8 @@ class SequentialContext:
         return SequentialContext(
             self._clk,
             Reset(combined_reset, active_low=active_low, is_async=is_async),
+            step_cond=self._step_cond,
+            on_reset=self._on_reset,
             attributes=self._attributes,
         )
 
@@ -817,6 +819,8 @@ class SequentialContext:
         return SequentialContext(
             self._clk,
             Reset(combined_reset, active_low=active_low, is_async=is_async),
+            step_cond=self._step_cond,
+            on_reset=self._on_reset,
             attributes=self._attributes,
         )
 
